@@ -24,7 +24,7 @@ ASSUMPTIONS = [
     "expression values are compared through the C10 reference parser (same tree), not by string equality",
 ]
 TIERS = {
-    "quick": {"examples": 6000, "budget_s": 100},
+    "quick": {"examples": 16000, "budget_s": 100},
     "thorough": {"examples": 160000, "budget_s": 1500},
 }
 PARTS = ["search"]
@@ -137,7 +137,7 @@ def search(acc: Acc, tier, shard, nshards):
                 acc.excl(k[9:], v)
             elif k.startswith(("sep:", "kwcase:", "quote:", "bare", "str:")):
                 acc.cls("surface:" + k if not k.startswith("str:") else k, v)
-        return check(doc, [("canonical", canon), ("surface", fancy)], public=(counter["i"] % 50 == 0))
+        return check(doc, [("canonical", canon), ("surface", fancy)], public=ch.chance(1, 50))
 
     hyp_search(acc, ID, "documents", shard, n, body, tier)
 
